@@ -1,7 +1,191 @@
 import ASV.Drv.J
+import ASV.Spec.Refine
+import ASV.Spec.HitFilter
+import ASV.Generated.C13Docking
 namespace ASV.Drv.C13
-open Lean ASV ASV.Drv
+open Lean ASV ASV.Drv ASV.Refine ASV.HitFilter
 
-def handle (_j : Json) : R Json := throw "C13: no model yet"
+def hitOfJson (j : Json) : R Hit := do
+  return ⟨← asInt (← idx j 0), ← asInt (← idx j 1), ← asInt (← idx j 2), ← asInt (← idx j 3), ← asInt (← idx j 4)⟩
+def hitToJson (h : Hit) : Json := jInts [h.prof, h.qs, h.qe, h.ev, h.sc]
+def hitsToJson (l : List Hit) : Json := jArr (l.map hitToJson)
+def optHitsOfJson (j : Json) : R (Option (List Hit)) :=
+  match j with
+  | .null => pure none
+  | _ => do return some (← listOf hitOfJson j)
+
+def tableI (l : List Int) (d : Int) : Int → Int := fun i =>
+  if i < 0 then d else (l[i.toNat]?).getD d
+def tableB (l : List Bool) : Int → Bool := fun i =>
+  if i < 0 then false else (l[i.toNat]?).getD false
+
+def envOfJson (j : Json) : R Env := do
+  let lens ← listOf asInt (fldD j "lens" (jArr []))
+  let reg ← listOf asBool (fldD j "reg" (jArr []))
+  -- docking kind: profile names are looked up in the set regenerated from the source
+  let names ← listOf asStr (fldD j "names" (jArr []))
+  let dock := names.map fun n => ASV.Generated.dockingDomains.contains n
+  return { len := tableI lens 1, reg := tableB reg, dock := tableB dock }
+
+def b (x : Bool) : Json := toJson x
+
+/-- all input hits use profiles of one hmm length (hypothesis of the `_partial` margin theorem) -/
+def uniformLen (env : Env) (l : List Hit) : Bool :=
+  match l with
+  | [] => true
+  | h :: t => t.all fun g => env.len g.prof == env.len h.prof
+
+def refineSpecJson (env : Env) (input out : List Hit) : Json :=
+  jObj [("sorted", b (sortedByStart out)), ("overlap", b (noExcessOverlap env out)),
+        ("clear", b (allStartClear env out)), ("prov", b (allProvenanceOK env input out))]
+
+def handleRefine (j : Json) : R Json := do
+  let env ← envOfJson j
+  let nb ← boolF j "nb"
+  let hits ← listOf hitOfJson (← fld j "hits")
+  let impl ← listOf hitOfJson (fldD j "impl" (jArr []))
+  let sorted := sortHits hits
+  let m := refine env nb hits
+  let maxLen := (sorted.map fun h => env.len h.prof).foldl max 0
+  return jObj [
+    ("model", hitsToJson m),
+    ("spec", refineSpecJson env sorted impl),
+    ("model_spec", refineSpecJson env sorted m),
+    ("global", b (allStartClearBy maxLen impl)),
+    ("scope", b (uniformLen env hits)),
+    ("nontrivial", b (m.length < sorted.length && m.length > 0))]
+
+def stageSpecJson (env : Env) (input out : List Hit) : Json :=
+  jObj [("sub", b (out.all input.contains)), ("sorted", b (sortedByStart out)),
+        ("overlap", b (noExcessOverlap env out)), ("clear", b (allStartClear env out)),
+        ("justified", b (droppedJustified env input out))]
+
+def handleRemOv (j : Json) : R Json := do
+  let env ← envOfJson j
+  let hits ← listOf hitOfJson (← fld j "hits")
+  let impl ← optHitsOfJson (fldD j "impl" Json.null)
+  let m := removeOverlapping? env hits
+  let inputSorted := sortedByStart hits
+  return jObj [
+    ("model", match m with | some l => hitsToJson l | none => Json.null),
+    ("spec", match impl with | some l => stageSpecJson env hits l | none => Json.null),
+    ("model_spec", match m with | some l => stageSpecJson env hits l | none => Json.null),
+    ("input_sorted", b inputSorted),
+    ("scope", b (uniformLen env hits && inputSorted)),
+    ("nontrivial", b (match m with | some l => l.length < hits.length | none => false))]
+
+def handleIncomplete (j : Json) : R Json := do
+  let env ← envOfJson j
+  let hits ← listOf hitOfJson (← fld j "hits")
+  let m := removeIncomplete env hits
+  return jObj [("model", hitsToJson m), ("spec", hitsToJson (specIncomplete env hits)),
+               ("nontrivial", b (m.length < hits.length))]
+
+def handleMerge (j : Json) : R Json := do
+  let env ← envOfJson j
+  let nb ← boolF j "nb"
+  let hits ← listOf hitOfJson (← fld j "hits")
+  let impl ← optHitsOfJson (fldD j "impl" Json.null)
+  let m := if nb then mergeImmediate? env hits else (match hits with | [] => some [] | _ => some (mergeDomainList env hits))
+  return jObj [
+    ("model", match m with | some l => hitsToJson l | none => Json.null),
+    ("prov", match impl with | some l => b (allProvenanceOK env hits l) | none => Json.null),
+    ("covered", match impl with | some l => b (allCovered hits l) | none => Json.null),
+    ("input_sorted", b (sortedByStart hits)),
+    ("nontrivial", b (match m with | some l => l.length < hits.length | none => false))]
+
+def handleDock (j : Json) : R Json := do
+  let env ← envOfJson j
+  let hits ← listOf hitOfJson (← fld j "hits")
+  let len ← intF j "L"
+  return jObj [("model", hitsToJson (dockingFilter env len hits)),
+               ("spec", hitsToJson (hits.filter (specDockKeep env len))),
+               ("nontrivial", b ((dockingFilter env len hits).length < hits.length))]
+
+/-! hmmer -/
+def hhitOfJson (j : Json) : R HHit := do
+  return ⟨← asInt (← idx j 0), ← asInt (← idx j 1), ← asInt (← idx j 2), ← asInt (← idx j 3)⟩
+def hhitToJson (h : HHit) : Json := jInts [h.ident, h.ps, h.pe, h.sc]
+
+def optInt (j : Json) : R (Option Int) :=
+  match j with
+  | .null => pure none
+  | _ => do return some (← asInt j)
+
+def herr : HErr → String
+  | .assertion => "assertion" | .valueError => "value-error"
+  | .zeroDivision => "other:ZeroDivisionError" | .unmodelled => "unmodelled"
+
+def handleHmmer (j : Json) : R Json := do
+  let cuts ← listOf optInt (← fld j "cut")
+  let cut : Int → Option Int := fun i => if i < 0 then none else (cuts[i.toNat]?).getD none
+  let limit ← intF j "limit"
+  let hits ← listOf hhitOfJson (← fld j "hits")
+  let impl ← match fldD j "impl" Json.null with
+    | .null => pure none
+    | x => do pure (some (← listOf hhitOfJson x))
+  let c := fun i => (cut i).getD 0
+  let m := HitFilter.removeOverlapping cut limit hits
+  let v := match impl with
+    | some out => let v := hmmerSpec c limit hits out
+      jObj [("sorted", b v.sorted), ("subset", b v.subset), ("separated", b v.separated),
+            ("justified", b v.justified), ("top", b v.topKept), ("ok", b v.ok)]
+    | none => Json.null
+  return jObj [
+    ("model", match m with
+      | .ok l => jObj [("ok", jArr (l.map hhitToJson))]
+      | .error e => jObj [("err", Json.str (herr e))]),
+    ("spec", v),
+    ("nontrivial", b (match m with | .ok l => l.length < hits.eraseDups.length | _ => false))]
+
+/-! cluster_prediction filters -/
+def fhitOfJson (j : Json) : R FHit := do
+  return ⟨← asNat (← idx j 0), ← asInt (← idx j 1), ← asInt (← idx j 2), ← asInt (← idx j 3), ← asInt (← idx j 4)⟩
+def uids (l : List FHit) : Json := jArr (l.map fun h => toJson h.uid)
+
+def handleMultiple (j : Json) : R Json := do
+  let genes ← listOf (listOf fhitOfJson) (← fld j "genes")
+  return jObj [
+    ("model_genes", jArr (genes.map fun g => uids (filterMultiple g))),
+    ("model_results", uids (filterMultipleAll genes)),
+    ("spec_genes", jArr (genes.map fun g => uids (specMultiple g))),
+    ("nontrivial", b (genes.any fun g => (filterMultiple g).length < g.length))]
+
+/-- some overlap group holds two hits with the same score (the real `set` enumeration — by object
+    address — then decides which one is "best") -/
+def hasTie (hits : List FHit) : Bool :=
+  hits.any fun a => hits.any fun c => a.uid != c.uid && a.sc == c.sc
+
+def handleEquiv (j : Json) : R Json := do
+  let eq ← listOf (listOf asInt) (← fld j "eq")
+  let hits ← listOf fhitOfJson (← fld j "hits")
+  let impl ← match fldD j "impl" Json.null with
+    | .null => pure none
+    | x => do pure (some (← listOf asNat x))
+  let m := filterResults eq hits
+  let v := match impl with
+    | some ids =>
+      let out := ids.filterMap fun i => hits.find? (fun h => h.uid == i)
+      let v := equivSpec eq hits out
+      jObj [("sublist", b (v.sublist && out.length == ids.length)), ("separated", b v.separated),
+            ("best", b v.bestKept), ("untouched", b v.untouched), ("ok", b (v.ok && out.length == ids.length))]
+    | none => Json.null
+  return jObj [
+    ("model", match m with | some l => uids l | none => Json.null),
+    ("spec", v), ("tie", b (hasTie hits)),
+    ("groups", jArr ((overlappingGroups hits).map uids)),
+    ("nontrivial", b (match m with | some l => l.length < hits.length | none => false))]
+
+def handle (j : Json) : R Json := do
+  match ← strF j "kind" with
+  | "refine" => handleRefine j
+  | "remov" => handleRemOv j
+  | "incomplete" => handleIncomplete j
+  | "merge" => handleMerge j
+  | "dock" => handleDock j
+  | "hmmer" => handleHmmer j
+  | "multiple" => handleMultiple j
+  | "equiv" => handleEquiv j
+  | k => throw s!"C13: unknown kind {k}"
 
 end ASV.Drv.C13
